@@ -68,20 +68,36 @@ def le : List UInt8 → Nat
   | [] => 0
   | b :: bs => b.toNat + 256 * le bs
 
+/-- `binary.LittleEndian.Uint32(b)` on a SLICE `b`: the compiler's bounds check `_ = b[3]` panics on a short slice -/
+def u32le (b : List UInt8) : Outcome Nat :=
+  if b.length < 4 then .panic "index out of range [3]" else .ok (le (b.take 4))
+
+/-- `binary.LittleEndian.Uint64(b)` -/
+def u64le (b : List UInt8) : Outcome Nat :=
+  if b.length < 8 then .panic "index out of range [7]" else .ok (le (b.take 8))
+
+@[inline] def liftO {α} (o : Outcome α) : M α := fun s => (o, s)
+
+/-- `buf[:k]` for a Go int `k` on a buffer of length `len`: out of range panics -/
+def sliceTo (len : Nat) (k : Int) : M Unit := fun s =>
+  if k < 0 ∨ (len : Int) < k then (.panic "slice bounds out of range", s) else (.ok (), s)
+
 /-- the padding loop of readByteSlice: `k` single-byte reads -/
 def padLoop : Nat → M Unit
   | 0 => ret ()
   | k + 1 => bind (readFull 1) fun _ => padLoop k
 
-/-- repaired `readN`, the loop over chunks for n > maxPrealloc: `k` = chunks left, `rem` = bytes left. Each chunk is
+/-- repaired `readN`, the loop over chunks for n > maxPrealloc: fuel = chunks left, `n` = wanted, `got` = len(data). Each chunk is
 read into a fixed buffer and appended (the append is what is counted). -/
-def readChunks : Nat → Nat → M Unit
-  | 0, _ => ret ()
-  | k + 1, rem =>
-    if rem = 0 then ret ()   -- `for len(data) < n`
+def readChunks : Nat → Nat → Nat → M Unit
+  | 0, _, _ => ret ()
+  | fuel + 1, n, got =>
+    if n ≤ got then ret ()   -- `for len(data) < n`
     else
-      let c := min rem maxPrealloc
-      bind (readFull c) fun _ => bind (allocN c) fun _ => readChunks k (rem - c)
+      -- k := n - len(data); if k > len(chunk) { k = len(chunk) }; io.ReadFull(r, chunk[:k]); data = append(data, chunk[:k]...)
+      let k : Int := min ((n : Int) - (got : Int)) (maxPrealloc : Int)
+      bind (sliceTo maxPrealloc k) fun _ => bind (readFull k.toNat) fun _ => bind (allocN k.toNat) fun _ =>
+      readChunks fuel n (got + k.toNat)
 
 /-- `data := make([]byte, n); io.ReadFull(r, data)` -/
 def allocRead (n : Nat) : M Unit := bind (allocN n) fun _ => bind (readFull n) fun _ => ret ()
@@ -89,7 +105,7 @@ def allocRead (n : Nat) : M Unit := bind (allocN n) fun _ => bind (readFull n) f
 /-- repaired `readN(r, n)` -/
 def readN (n : Nat) : M Unit :=
   if n ≤ maxPrealloc then allocRead n
-  else bind (allocN maxPrealloc) fun _ => readChunks ((n + maxPrealloc - 1) / maxPrealloc) n
+  else bind (allocN maxPrealloc) fun _ => readChunks ((n + maxPrealloc - 1) / maxPrealloc) n 0
 
 /-- `readByteSlice`: returns the length of the data -/
 def readByteSlice (cfg : Cfg) : M Nat :=
@@ -99,8 +115,8 @@ def readByteSlice (cfg : Cfg) : M Nat :=
     bind (allocRead first) fun _ =>
     bind (padLoop ((4 - (1 + first) % 4) % 4)) fun _ => ret first
   else if first = 254 then
-    bind (readFull 3) fun sb =>
-    let n := le sb
+    -- sizeBuf := make([]byte, 4); io.ReadFull(r, sizeBuf[:3]); binary.LittleEndian.Uint32(sizeBuf)
+    bind (readFull 3) fun sb => bind (liftO (u32le (sb ++ [0]))) fun n =>
     bind (if cfg.allocBeforeRead then allocRead n else readN n) fun _ =>
     bind (padLoop ((4 - (4 + n) % 4) % 4)) fun _ => ret n
   else fail "invalid bytes prefix"
@@ -151,20 +167,19 @@ end
 mutual
 /-- `tl.decode` / generated `UnmarshalTL`; the result is the numeric value of an integer (0 otherwise), used for modes -/
 def decode (cfg : Cfg) : Ty → M Nat
-  | .int4 => bind tick fun _ => bind (readFull 4) fun b => ret (le b)
-  | .int8 => bind tick fun _ => bind (readFull 8) fun b => ret (le b)
-  | .bool => bind tick fun _ => bind (readFull 4) fun b =>
-      if le b = 0x997275b5 then ret 1 else if le b = 0xbc799737 then ret 0 else fail "invalid Bool tag"
+  | .int4 => bind tick fun _ => bind (readFull 4) fun b => bind (liftO (u32le b)) fun v => ret v
+  | .int8 => bind tick fun _ => bind (readFull 8) fun b => bind (liftO (u64le b)) fun v => ret v
+  | .bool => bind tick fun _ => bind (readFull 4) fun b => bind (liftO (u32le b)) fun v =>
+      if v = 0x997275b5 then ret 1 else if v = 0xbc799737 then ret 0 else fail "invalid Bool tag"
   | .bytes => bind tick fun _ => bind (readByteSlice cfg) fun _ => ret 0
   | .arr n => bind tick fun _ => bind (readByteSlice cfg) fun l =>
       if l = n then ret 0 else fail "mismatched length of decoded byte slice and array"
   | .int256 => bind tick fun _ => bind (readFull 32) fun _ => ret 0
-  | .vec sz e => bind tick fun _ => bind (readFull 4) fun b =>
-      let ln := le b
+  | .vec sz e => bind tick fun _ => bind (readFull 4) fun b => bind (liftO (u32le b)) fun ln =>
       bind (allocN ((if cfg.trustCount then ln else min ln maxPreallocItems) * sz)) fun _ =>
       vecLoop (decode cfg e) sz ln
   | .struct fs => bind tick fun _ => decodeFields cfg fs 0
-  | .sum alts => bind tick fun _ => bind (readFull 4) fun b => decodeAlts cfg alts (le b)
+  | .sum alts => bind tick fun _ => bind (readFull 4) fun b => bind (liftO (u32le b)) fun tag => decodeAlts cfg alts tag
   | .ptr e => if cfg.nilPtrPanics then crash "reflect: call of reflect.Value.Type on zero Value"
       else bind tick fun _ => decode cfg e
   | .bad => bind tick fun _ => fail "type not implemented"
